@@ -82,13 +82,17 @@ def run(chk):
         kept, dropped = (unparse(x) for x in init[0].targets[0].elts)
         for rt in [s for s in cfg.stmts() if isinstance(s, ast.Return)]:
             v = rt.value
-            sorted_last = isinstance(v, ast.Call) and isinstance(v.func, ast.Attribute) and v.func.attr == "sort_index" and not v.args
+            sorted_last = isinstance(v, ast.Call) and isinstance(v.func, ast.Attribute) and v.func.attr == "sort_index" and not v.args \
+                and (isinstance(v.func.value, ast.Name) or (isinstance(v.func.value, ast.Call) and unparse(v.func.value.func) == "pd.concat"))
             r2.require(sorted_last, f"{key0}|sort_index-last", f.where(rt), f"{f.qualname} must return `<concat>.sort_index()` (chronological order)")
             sl = backward_slice_exprs(rd, rt, v, 3)
             concat = [n for e in sl for n in ast.walk(e) if isinstance(n, ast.Call) and unparse(n.func) == "pd.concat"]
             ok = any(c2.args and isinstance(c2.args[0], (ast.List, ast.Tuple)) and [unparse(x) for x in c2.args[0].elts] == [kept, dropped] and kwarg(c2, "axis") in (None,) or
                      (c2.args and isinstance(c2.args[0], (ast.List, ast.Tuple)) and sorted(unparse(x) for x in c2.args[0].elts) == sorted([kept, dropped]) and (kwarg(c2, "axis") is None or unparse(kwarg(c2, "axis")) == "0"))
                      for c2 in concat)
+            if ok and isinstance(v, ast.Call) and isinstance(v.func.value, ast.Name):
+                # the sorted name must be bound by the concat itself (no filtering in between)
+                ok = all(isinstance(rd.value_of(d), ast.Call) and unparse(rd.value_of(d).func) == "pd.concat" for d in rd.reaching(rt, v.func.value.id))
             r2.require(ok, f"{key0}|concat(kept, dropped)", f.where(rt), f"{f.qualname}: result must be the row-wise concat of exactly `{kept}` (with predictions) and `{dropped}`")
         # between the split and the return: kept only re-bound by a left join; dropped only by copy / masking stores
         for s in cfg.stmts():
